@@ -1019,3 +1019,13 @@ def expr_or_closure_mentions_field(P, e, field, owner_suffix):
         if x[0] == "closure" and x[1] in P.fns and fn_mentions_field(P, P.fns[x[1]], owner_suffix, field):
             return True
     return False
+
+
+def resolver_registration_fn(P):
+    """the function that stores a hostname resolver (sender, deadline) in Zeroconf.hostname_resolvers: add_hostname_resolver,
+    or its caller when that helper has been inlined"""
+    hits = [f for f in P.lib_fns() if not f.in_tests() and not f.is_closure and
+            any("HashMap" in cname(t) and method(cname(t)) == "insert" and recv_mentions(P, f, b, t, "hostname_resolvers", "Zeroconf") for b, t in f.calls())]
+    if len(hits) != 1:
+        raise KeyError("ANCHOR-MISSING: expected exactly one function inserting into hostname_resolvers, found %d" % len(hits))
+    return hits[0]
